@@ -7,6 +7,7 @@ pub mod c05;
 pub mod c06;
 pub mod c07;
 pub mod c09;
+pub mod c10;
 pub mod c08;
 pub mod c11;
 pub mod c12;
@@ -28,6 +29,7 @@ pub const ALL: &[(&str, fn(&Ctx))] = &[
     ("C07", c07::run),
     ("C08", c08::run),
     ("C09", c09::run),
+    ("C10", c10::run),
     ("C11", c11::run),
     ("C12", c12::run),
     ("C13", c13::run),
